@@ -353,3 +353,89 @@ for t in ('f', 'i'):
                       % (OB, OH3, SH[sh][0], IOR, sh, t, sh), 'solve_ord min_%d' % NC[sh]))
         ORDER.append(('reduce_max_is_greatest__v%s%s' % (sh, t), '%s\n  %s (a : %s %s),\n  is_greatest T ltb (reduce_max__v%s%s _ a) (l%s a)'
                       % (OB, OH3, SH[sh][0], IOR, sh, t, sh), 'solve_ord max_%d' % NC[sh]))
+
+
+# ====================================================================================== constants.h (tag constants)
+# Hand-written table (part of the specification): what every conversion operator of every tag constant has to return.
+# Data model LP64 (x86-64 SysV): char is SIGNED 8 bit, short 16, int 32, long = long long 64; float = binary32, double = binary64.
+#   zero -> 0, one -> 1                                                   (all 12 arithmetic types)
+#   pos_inf / inf -> +infinity (float, double), numeric_limits<T>::max()  (integer types)
+#   neg_inf -> -infinity (float, double), numeric_limits<T>::min()        (integer types; 0 for the unsigned ones)
+#   nan -> a quiet NaN, ulp -> numeric_limits<T>::epsilon()               (float, double only: the source has no other conversion)
+#   pi family -> the binary32 / binary64 number NEAREST to the real constant (float, double only)
+#   one_over_255 (namespace-scope float) -> fl32(1/255)
+from fractions import Fraction as _Fr
+import struct as _struct
+
+PI_DIGITS = _Fr('3.14159265358979323846264338327950288419716939937510582097494459230781640628620899')
+CONST_TYPES = [  # (suffix of the translated name, ctype, C++ type)
+    ('d__', 'F64', 'double'), ('f__', 'F32', 'float'), ('l__', 'I64', 'long long'), ('ul__', 'U64', 'unsigned long long'),
+    ('l___2', 'I64', 'long'), ('ul___2', 'U64', 'unsigned long'), ('i__', 'I32', 'int'), ('u__', 'U32', 'unsigned int'),
+    ('s__', 'I16', 'short'), ('us__', 'U16', 'unsigned short'), ('c__', 'I8', 'char'), ('uc__', 'U8', 'unsigned char')]
+INT_MAX = {'I8': 127, 'U8': 255, 'I16': 32767, 'U16': 65535, 'I32': 2147483647, 'U32': 4294967295,
+           'I64': 9223372036854775807, 'U64': 18446744073709551615}
+INT_MIN = {'I8': -128, 'U8': 0, 'I16': -32768, 'U16': 0, 'I32': -2147483648, 'U32': 0, 'I64': -9223372036854775808, 'U64': 0}
+PI_FAMILY = [  # (struct, C++ constant, real value, Coq real expression)
+    ('PiTy', 'pi', PI_DIGITS, 'PI'), ('OneOverPiTy', 'one_over_pi', 1 / PI_DIGITS, '1 / PI'), ('TwoPiTy', 'two_pi', 2 * PI_DIGITS, '2 * PI'),
+    ('HalfPiTy', 'half_pi', PI_DIGITS / 2, 'PI / 2'), ('OneOverTwoPiTy', 'one_over_two_pi', 1 / (2 * PI_DIGITS), '1 / (2 * PI)'),
+    ('FourPiTy', 'four_pi', 4 * PI_DIGITS, '4 * PI'), ('QuarterPiTy', 'quarter_pi', PI_DIGITS / 4, 'PI / 4'),
+    ('OneOverFourPiTy', 'one_over_four_pi', 1 / (4 * PI_DIGITS), '1 / (4 * PI)')]
+
+
+def nearest(x, prec):
+    """the binary floating-point number with `prec` significant bits nearest to the positive rational x (ties to even; normal range)
+    -> (value as Fraction, exponent e with 2^e <= x < 2^(e+1))"""
+    e = 0
+    while _Fr(2) ** (e + 1) <= x: e += 1
+    while _Fr(2) ** e > x: e -= 1
+    u = _Fr(2) ** (e - prec + 1)
+    m, r = divmod(x, u)
+    m = int(m)
+    if 2 * r > u or (2 * r == u and m % 2 == 1): m += 1
+    return m * u, e
+
+
+def cvq(fr):
+    return 'VQ (%s # %d)' % (('(%d)' % fr.numerator) if fr.numerator < 0 else str(fr.numerator), fr.denominator)
+
+
+def fbits(fr, ct):
+    x = fr if isinstance(fr, float) else float(fr)
+    if x != x: return 'nan'
+    return _struct.pack('>f' if ct == 'F32' else '>d', x).hex()
+
+
+CONSTS = []      # dict(name, ctype, cxx, cv (expected Coq value at ConstSem.IC), bits (expected output of the harness), what)
+CONST_PI = []    # dict(name, ctype, real (Coq real expression), half_ulp_den (half an ulp of the literal's binade = 1 / half_ulp_den))
+for (tag, cname, kind) in (('ZeroTy', 'zero', 'zero'), ('OneTy', 'one', 'one'), ('NegInfTy', 'neg_inf', 'neg'), ('PosInfTy', 'pos_inf', 'pos')):
+    for (suf, ct, cxx) in CONST_TYPES:
+        fl = ct in ('F32', 'F64')
+        if kind == 'zero': cv, bits = ('VQ (0 # 1)', fbits(0.0, ct)) if fl else ('VZ 0', '0')
+        elif kind == 'one': cv, bits = ('VQ (1 # 1)', fbits(1.0, ct)) if fl else ('VZ 1', '1')
+        elif kind == 'pos': cv, bits = ('VInf false', fbits(float('inf'), ct)) if fl else ('VZ %d' % INT_MAX[ct], str(INT_MAX[ct]))
+        else: cv, bits = ('VInf true', fbits(float('-inf'), ct)) if fl else ('VZ %s' % (('(%d)' % INT_MIN[ct]) if INT_MIN[ct] < 0 else '0'), str(INT_MIN[ct]))
+        CONSTS.append(dict(name='%s_conv_%s' % (tag, suf), ctype=ct, cxx='(%s)rkcommon::math::%s' % (cxx, cname), cv=cv, bits=bits,
+                           what='%s as %s' % (cname, cxx)))
+for (suf, ct, cxx, prec) in (('d__', 'F64', 'double', 53), ('f__', 'F32', 'float', 24)):
+    CONSTS.append(dict(name='NaNTy_conv_' + suf, ctype=ct, cxx='(%s)rkcommon::math::nan' % cxx, cv='VNaN', bits='nan', what='nan as ' + cxx))
+    eps = _Fr(2) ** (1 - prec)
+    CONSTS.append(dict(name='UlpTy_conv_' + suf, ctype=ct, cxx='(%s)rkcommon::math::ulp' % cxx, cv=cvq(eps), bits=fbits(eps, ct),
+                       what='ulp as %s = numeric_limits::epsilon()' % cxx))
+    for (tag, cname, real, coqreal) in PI_FAMILY:
+        v, e = nearest(real, prec)
+        CONSTS.append(dict(name='%s_conv_%s' % (tag, suf), ctype=ct, cxx='(%s)rkcommon::math::%s' % (cxx, cname), cv=cvq(v), bits=fbits(v, ct),
+                           what='%s as %s = the nearest %s to %s' % (cname, cxx, 'binary64' if prec == 53 else 'binary32', coqreal)))
+        CONST_PI.append(dict(name='%s_conv_%s' % (tag, suf), ctype=ct, real=coqreal, half_ulp_den=2 ** (prec - e)))
+_v255, _ = nearest(_Fr(1, 255), 24)
+CONSTS.append(dict(name='c04_get_one_over_255__', ctype='F32', cxx='rkcommon::math::one_over_255', cv=cvq(_v255), bits=fbits(_v255, 'F32'),
+                   what='one_over_255 = fl32(1/255)', nothis=True))
+# broadcast uses vec_t<T,N>(T(c)): every component is the constant (inst/const.cpp, namespace rkcommon::c04)
+CONST_BROADCAST = []   # (definition name, shape, expected component value, bits)
+_bv = {('f', 'zero'): ('VQ (0 # 1)', fbits(0.0, 'F32')), ('f', 'one'): ('VQ (1 # 1)', fbits(1.0, 'F32')), ('f', 'pos_inf'): ('VInf false', fbits(float('inf'), 'F32')),
+       ('f', 'neg_inf'): ('VInf true', fbits(float('-inf'), 'F32')), ('f', 'ulp'): (cvq(_Fr(2) ** -23), fbits(_Fr(2) ** -23, 'F32')),
+       ('i', 'zero'): ('VZ 0', '0'), ('i', 'one'): ('VZ 1', '1'), ('i', 'pos_inf'): ('VZ 2147483647', '2147483647'), ('i', 'neg_inf'): ('VZ (-2147483648)', '-2147483648'),
+       ('uc', 'zero'): ('VZ 0', '0'), ('uc', 'one'): ('VZ 1', '1'), ('uc', 'pos_inf'): ('VZ 255', '255'), ('uc', 'neg_inf'): ('VZ 0', '0'),
+       ('d', 'pi'): (cvq(nearest(PI_DIGITS, 53)[0]), fbits(nearest(PI_DIGITS, 53)[0], 'F64'))}
+for (t, c), (cv, bits) in _bv.items():
+    for sh in ALLSH:
+        CONST_BROADCAST.append(dict(name='c04_b%s%s_%s__' % (sh, t, c), sh=sh, t=t, c=c, cv=cv, bits=bits))
